@@ -225,11 +225,19 @@ def check(m, run):
     with run.corroborating(la_ok, 'LA3', rules=('PV3.rhs-permuted-like-the-matrix',)):
         pv3(m, run, piv)
     # ---------------------------------------------------------------- AL identities
-    check_cross(m, run)
+    # the vector / matrix helpers are decided on symbolic operands (VH2); the rules that read the returned display / the element maps corroborate
+    n_vh = len(run.obs)
+    try:
+        _sd.vh2(m, run)
+    except AnalysisError as ex:
+        run.error(str(ex))
+    vh_ok = len(run.obs) > n_vh and all(o.ok for o in run.obs[n_vh:])
+    with run.corroborating(vh_ok, 'VH2', rules=('AL1.cross-product', 'AL4.element-map')):
+        check_cross(m, run)
+        check_elementwise(m, run)
     check_binomial(m, run)
     rnd1(m, run)
     check_is_left(m, run, 'AL3.is-left')
-    check_elementwise(m, run)
     # ---------------------------------------------------------------- DV1 zero guards test the divisor
     for fi in funcs:
         for key, ok, detail, node in zero_guard_findings(fi.node):
